@@ -804,6 +804,19 @@ func (g *Gen) gen(t *rapid.T, kind string) {
 			// live group covers the span of a group that is revived
 			for _, x := range gs {
 				if x.r.db == op.DB && x.r.rp == op.RP && x.sg.ID == op.ID && x.sg.Deleted() {
+					// ... and the indexes of a group that is revived are still there (index groups outlive their shard groups)
+					have := map[uint64]bool{}
+					for i := range x.r.info.IndexGroups {
+						for _, ix := range x.r.info.IndexGroups[i].Indexes {
+							have[ix.ID] = true
+						}
+					}
+					for _, sh := range x.sg.Shards {
+						if !have[sh.IndexID] && op.N == 1 {
+							g.Excluded["cancel-delete-after-index-pruned"]++
+							op.N = 0
+						}
+					}
 					for i := range x.r.info.ShardGroups {
 						o := &x.r.info.ShardGroups[i]
 						if !o.Deleted() && o.EngineType == x.sg.EngineType && o.StartTime.Before(x.sg.EndTime) && x.sg.StartTime.Before(o.EndTime) {
@@ -982,37 +995,48 @@ func (g *Gen) gen(t *rapid.T, kind string) {
 	case "mergeshards":
 		// the store reports shards of ONE partition, taken from time-consecutive live groups of one policy, in time order
 		for _, r := range g.rps() {
-			if len(r.info.ShardGroups) < 2 || r.info.ShardMergeDuration == 0 {
+			if r.info.ShardMergeDuration == 0 || r.info.MarkDeleted || r.dbi.MarkDeleted || len(r.info.Measurements) == 0 {
 				continue
 			}
-			start := ui(t, 0, len(r.info.ShardGroups)-2, "mergeStart")
-			n := ui(t, 2, len(r.info.ShardGroups)-start, "mergeN")
-			pt := uint32(0)
-			var ids []uint64
-			ok := true
-			for i := start; i < start+n; i++ {
-				sg := &r.info.ShardGroups[i]
-				if sg.Deleted() || sg.EngineType != r.info.ShardGroups[start].EngineType || (i > start && !sg.StartTime.Equal(r.info.ShardGroups[i-1].EndTime)) {
-					ok = false
-					break
+			gs := r.info.ShardGroups
+			// runs of adjacent live groups of one engine type
+			type run struct{ from, to int }
+			var runs []run
+			for i := 0; i+1 < len(gs); i++ {
+				j := i
+				for j+1 < len(gs) && !gs[j].Deleted() && !gs[j+1].Deleted() && gs[j+1].EngineType == gs[i].EngineType && gs[j+1].StartTime.Equal(gs[j].EndTime) {
+					j++
 				}
-				found := false
-				for _, s := range sg.Shards {
-					if len(s.Owners) > 0 && s.Owners[0] == pt {
-						ids = append(ids, s.ID)
-						found = true
+				if j > i {
+					runs = append(runs, run{i, j})
+				}
+			}
+			if len(runs) == 0 {
+				// nothing to merge yet: write next to the newest group instead, so that a later report finds neighbours
+				ts, eng := int64(0), int64(0)
+				if len(gs) > 0 {
+					ts, eng = gs[len(gs)-1].EndTime.UnixNano(), int64(gs[len(gs)-1].EngineType)
+				} else {
+					eng = int64(r.info.Measurements[mstNames(r.info)[0]].EngineType)
+				}
+				g.emit(Op{K: "createsg", DB: r.db, RP: r.rp, N: ts, ID: 1, N2: eng})
+				return
+			}
+			x := pick(t, runs, "mergeRun")
+			to := ui(t, x.from+1, x.to, "mergeTo")
+			var ids []uint64
+			for i := x.from; i <= to; i++ {
+				for _, sh := range gs[i].Shards {
+					if len(sh.Owners) > 0 && sh.Owners[0] == 0 {
+						ids = append(ids, sh.ID)
 						break
 					}
 				}
-				if !found {
-					ok = false
-					break
-				}
 			}
-			if ok {
-				g.emit(Op{K: kind, DB: r.db, RP: r.rp, N: int64(pt), IDs: ids})
-				return
+			if len(ids) == to-x.from+1 {
+				g.emit(Op{K: kind, DB: r.db, RP: r.rp, N: 0, IDs: ids})
 			}
+			return
 		}
 
 	case "createuser":
